@@ -166,6 +166,7 @@ class _null:
 
 def run_impl(case):
     rnd = lib.rng_for(case["seed"], case["idx"], 101)
+    rnd2 = lib.rng_for(case["seed"], case["idx"], 121)
     h = build(rnd, lib.rng_for(case["seed"], case["idx"], 111))
     root, gb, cdw, ratio = h.root, h.gb, h.cdw, h.ratio
     mmap = root.bus.memory_map
@@ -303,6 +304,43 @@ def run_impl(case):
                 stats["readbacks"] = stats.get("readbacks", 0) + 1
                 if got != [(want >> (k * cdw)) & gmask for k in range(n)]:
                     fails.append(("C01", f"{i.path} at {i.start}..{i.end}: wrote {want:#x} through the root, read back chunks {got}", i.start))
+        # ---- block cycles: all chunks of a register written in consecutive transfers WITHOUT releasing cyc/stb
+        # between them (the next transfer is presented in the cycle after the acknowledge)
+        for i in [r for r in regs if r.resource.element.access.writable()][:6]:
+            el = i.resource.element
+            n = i.end - i.start
+            vals = [rnd2.getrandbits(cdw) for _ in range(n)]
+            events = []
+            ctx.set(bus.we, 1); ctx.set(bus.cyc, 1); ctx.set(bus.stb, 1)
+            ok = True
+            for k in range(n):
+                a = i.start + k
+                lane = a & ((1 << gb) - 1)
+                ctx.set(bus.adr, a >> gb); ctx.set(bus.sel, 1 << lane); ctx.set(bus.dat_w, (vals[k] & gmask) << (lane * cdw))
+                acked = False
+                for _ in range(ratio + 4):
+                    for j, e2 in elems:
+                        if e2.access.writable() and ctx.get(e2.w_stb):
+                            events.append((id(j.resource), ctx.get(e2.w_data)))
+                    if ctx.get(bus.ack):
+                        acked = True
+                        await ctx.tick()
+                        break
+                    await ctx.tick()
+                ok = ok and acked
+            ctx.set(bus.cyc, 0); ctx.set(bus.stb, 0)
+            for _ in range(2):
+                for j, e2 in elems:
+                    if e2.access.writable() and ctx.get(e2.w_stb):
+                        events.append((id(j.resource), ctx.get(e2.w_data)))
+                await ctx.tick()
+            stats["block_writes"] = stats.get("block_writes", 0) + 1
+            want = sum(v << (k * cdw) for k, v in enumerate(vals)) & ((1 << el.width) - 1)
+            if not ok:
+                fails.append(("C01", f"block write of {i.path} at {i.start}..{i.end}: a transfer was not acknowledged", i.start))
+            elif events != [(id(i.resource), want)]:
+                fails.append(("C01", f"block write (cyc/stb held across {n} transfers) of {vals} to {i.path} at {i.start}..{i.end}: element write strobes "
+                                     f"{[(x == id(i.resource), d_) for x, d_ in events]}, expected one on that register with data {want:#x}", i.start))
         # ---- back-to-back: an access to an unassigned address presented in the very cycle after the
         # acknowledge of a CSR or SRAM access (strobe held through the acknowledge, no idle cycle)
         free = [a for a in range(naddr) if owner[a] is None and not any(s_ <= a < e_ for s_, e_ in bridge_windows)]
